@@ -43,12 +43,13 @@ BUDGET_S = {'quick': 40, 'thorough': 600}
 FLOORS = {'quick': {'histories': 530, 'serve_histories': 390, 'seed_histories': 135, 'seed_tasks': 310, 'stale_refetched': 2800,
                     'fresh_served_from_cache': 9300, 'failed_refresh_kept_old': 920, 'refreshed_after_recovery': 340,
                     'boundary_dont_care': 1450, 'threshold_changes': 620, 'seed_stale_refetched': 1240,
-                    'seed_fresh_untouched': 6900, 'seed_failed_refresh_kept_old': 95, 'stale_served_on_error': 55},
+                    'seed_fresh_untouched': 6900, 'seed_failed_refresh_kept_old': 95, 'stale_served_on_error': 55,
+                    'linked_histories': 18, 'linked_tile_judgements': 170},
           'thorough': {'histories': 8500, 'serve_histories': 6500, 'seed_histories': 1900, 'seed_tasks': 4500,
                        'stale_refetched': 45000, 'fresh_served_from_cache': 137000, 'failed_refresh_kept_old': 15800,
                        'refreshed_after_recovery': 6000, 'boundary_dont_care': 22000, 'threshold_changes': 10700,
                        'seed_stale_refetched': 17600, 'seed_fresh_untouched': 96000, 'seed_failed_refresh_kept_old': 1400,
-                       'stale_served_on_error': 850}}
+                       'stale_served_on_error': 850, 'linked_histories': 300, 'linked_tile_judgements': 2800}}
 RULE = ("case = one history on one generated configuration (backend file tc/tms/mp | sqlite; meta 1x1, 2x2, 3x2, +-buffer, "
         "bulk meta tiles, minimize_meta_requests; source wms | tile; rule kind time string / YAML timestamp / mtime file / "
         "relative age; time zone). serving history = fill, then 3-6 rounds of {stamp tiles at threshold+delta, delta in "
@@ -73,7 +74,9 @@ ASSUMPTIONS = [
     "creation of missing tiles is C11's subject and only counted",
     "seed worker body (TileSeedWorker.work_loop) runs on a thread instead of a forked process; exp_backoff sleeps are "
     "replaced by zero-length sleeps with at most 3 retries",
-    "dimensions, on_error handlers, link_single_color_images and caches without timestamps are outside the quantifier",
+    "dimensions, on_error handlers and caches without timestamps are outside the quantifier; linked single-colour tiles "
+    "(link_single_color_images true / hardlink) have their own small family: flat upstream whose colour is the epoch, "
+    "timestamps set on the links themselves (never followed) and on the shared colour files",
     "time zone set per case via TZ/tzset, thresholds chosen away from DST changes",
 ]
 
@@ -1245,19 +1248,161 @@ def setup_shard(run):
 
 def gen_cases(run):
     n = run.pick(1400, 26000)
+    # directed: the open known finding about hard-linked single-colour tiles is reproduced in every run
+    yield {'i': 2000001, 'mode': 'linked', 'force': {'link': 'hardlink', 'layout': 'tc', 'meta': [1, 1], 'via': 'tms', 'second_epoch': 0}}
     for i in range(n):
+        if i % 20 == 7:
+            yield {'i': i, 'mode': 'linked'}
         yield {'i': i, 'mode': 'seed' if i % 4 == 3 else 'serve'}
+
+
+# ---------------------------------------------------------------------------------------------------------------------
+# linked single-colour tiles (file cache, link_single_color_images): the tile is a link to a shared colour file that is
+# written once; the time the TILE was written is the time of the link. Own small family: flat upstream whose colour is
+# the epoch, explicit timestamps on links (never followed) and on the shared files.
+# ---------------------------------------------------------------------------------------------------------------------
+
+LINK_COLOURS = [(10, 200, 30), (200, 40, 40), (30, 60, 220), (240, 240, 20)]
+
+
+def run_linked(run, case, d):
+    import io as _io
+    from PIL import Image
+    from mapproxy.cache.tile import Tile
+    rng = run.rng('linked', case['i'])
+    mode = rng.choice([True, True, 'hardlink'])
+    layout = rng.choice(['tc', 'tms', 'mp', 'quadkey', 'arcgis'])
+    meta = rng.choice([(1, 1), (1, 1), (2, 2), (2, 1)])
+    via = rng.choice(['tms', 'tm'])
+    same_colour = rng.choice([0, 0, 1])
+    force = case.get('force') or {}
+    mode, layout, via, same_colour = (force.get('link', mode), force.get('layout', layout), force.get('via', via),
+                                      force.get('second_epoch', same_colour))
+    meta = tuple(force.get('meta', meta))
+    state = {'epoch': 0}
+    up = upstream.install()
+    up.faults.clear()
+    up.reset_log()
+
+    def flat(call):
+        try:
+            w, h = int(call.params.get('width', 64)), int(call.params.get('height', 64))
+        except ValueError:
+            w, h = 64, 64
+        b = _io.BytesIO()
+        Image.new('RGB', (max(1, min(w, 2048)), max(1, min(h, 2048))), LINK_COLOURS[state['epoch'] % len(LINK_COLOURS)]).save(b, 'PNG')
+        return upstream.Resp(b.getvalue(), 'image/png')
+    up.register('flat', flat)
+    now = int(time.time())
+    T0 = now - 30 * 86400
+    conf = scenario.base_conf()
+    conf['grids']['g'] = {'srs': 'EPSG:3857', 'bbox': [-20037508.342789244, -20037508.342789244, 20037508.342789244, 20037508.342789244],
+                          'tile_size': [64, 64], 'num_levels': 4, 'origin': 'll'}
+    conf['sources']['src'] = {'type': 'wms', 'req': {'url': 'http://flat/service?', 'layers': 'a'}, 'supported_srs': ['EPSG:3857']}
+    conf['caches']['c'] = {'grids': ['g'], 'sources': ['src'], 'format': 'image/png', 'request_format': 'image/png',
+                           'meta_size': list(meta), 'meta_buffer': 0, 'link_single_color_images': mode,
+                           'cache': {'type': 'file', 'directory_layout': layout},
+                           'refresh_before': {'time': time.strftime('%Y-%m-%dT%H:%M:%S', time.localtime(T0))}}
+    conf['layers'] = [{'name': 'l', 'title': 'l', 'sources': ['c']}]
+    conf['services'] = {'tms': {}}
+    sc = scenario.Scenario(d, conf)
+    tm = sc.tile_manager('c')
+    cache_dir = tm.cache.cache_dir
+    z = 2
+    pool = [(x, y, z) for x in range(4) for y in range(4)]
+    rng.shuffle(pool)
+    # A and B in different meta tiles
+    A = pool[0]
+    B = [c for c in pool if (c[0] // meta[0], c[1] // meta[1]) != (A[0] // meta[0], A[1] // meta[1])][0]
+    hist = []
+    mech0 = {'mode': 'linked', 'link': 'symlink' if mode is True else 'hardlink', 'meta': '%dx%d' % meta, 'via': via, 'layout': layout}
+
+    def ask(c, label):
+        n0 = len(up.log)
+        if via == 'tms':
+            r = sc.get('/tms/1.0.0/l/EPSG3857/%d/%d/%d.png' % (c[2], c[0], c[1]))
+            ok = r.code == 200
+            img = r.image() if ok else None
+        else:
+            coll = tm.load_tile_coords([tuple(c)], with_metadata=True)
+            t = coll[tuple(c)]
+            ok = t.source is not None
+            img = t.source.as_image() if ok else None
+        ncalls = len(up.log) - n0
+        col = img.convert('RGB').getpixel((5, 5)) if img is not None else None
+        hist.append('%s %r -> %d upstream call(s), colour %r' % (label, c, ncalls, col))
+        return ncalls, col
+
+    def stamp_all(ts):
+        # links are stamped themselves (never followed), shared colour files too
+        n = 0
+        for root, dirs, files in os.walk(cache_dir):
+            for f in files:
+                os.utime(os.path.join(root, f), (ts, ts), follow_symlinks=False)
+                n += 1
+        return n
+
+    def expect(label, got, want_calls, want_col, clause):
+        run.judge(('linked', mech0['link'], mech0['meta'], via, clause), nontrivial=True)
+        run.hit('linked_tile_judgements')
+        calls, col = got
+        bad = None
+        if want_calls == 0 and calls != 0:
+            bad = 'fresh_refetched'
+        elif want_calls > 0 and calls == 0:
+            bad = 'stale_served'
+        elif want_col is not None and col != want_col:
+            bad = 'wrong_epoch_shown'
+        if bad:
+            run.violation(dict(mech0, clause=bad, step=clause), case,
+                          'linked single-colour tiles (%r, layout %s, meta %r, via %s): step %s expected %s upstream calls and colour %r, '
+                          'observed %d calls and %r | threshold %d | history: %s' % (
+                              mode, layout, meta, via, label, 'no' if want_calls == 0 else 'some', want_col, calls, col, T0, ' ; '.join(hist)))
+            return False
+        return True
+
+    c0 = LINK_COLOURS[0]
+    if not expect('fill A', ask(A, 'fill A'), 1, c0, 'fill'):
+        return
+    if not expect('repeat A', ask(A, 'repeat A'), 0, c0, 'fresh_link_fresh_file'):
+        return
+    n = stamp_all(T0 - 3600)
+    hist.append('every file and link below the cache stamped threshold-3600 (%d entries)' % n)
+    run.hit('linked_tiles_with_old_shared_file')
+    state['epoch'] = same_colour                    # same colour again (shared file reused) or a new one
+    cB = LINK_COLOURS[state['epoch']]
+    if not expect('fill B', ask(B, 'fill B'), 1, cB, 'fill_second'):
+        return
+    # B was written now (after the threshold); with the same colour its data file is the old shared one
+    if not expect('repeat B', ask(B, 'repeat B'), 0, cB, 'fresh_link_old_file' if state['epoch'] == 0 else 'fresh_link_fresh_file'):
+        return
+    state['epoch'] = 2
+    c2 = LINK_COLOURS[2]
+    # A's link is older than the threshold: must be refreshed and show the new epoch
+    if not expect('stale A', ask(A, 'stale A'), 1, c2, 'stale_link'):
+        return
+    if not expect('repeat A after refresh', ask(A, 'repeat A after refresh'), 0, c2, 'fresh_after_refresh'):
+        return
+    expect('repeat B at the end', ask(B, 'repeat B at the end'), 0, cB, 'fresh_link_old_file_later')
+    run.hit('linked_histories')
 
 
 def run_case(run, case):
     rng = run.rng('case', case['i'])
     mode = case['mode']
-    spec = case.get('spec') or gen_spec(rng, mode)
+    spec = case.get('spec') or (gen_spec(rng, mode) if mode != 'linked' else None)
     ops = case.get('ops')
-    if ops is None:
+    if ops is None and mode != 'linked':
         ops = gen_serve_ops(rng, spec) if mode == 'serve' else gen_seed_ops(rng, spec)
     d = run.subdir('c13')
     up = upstream.install()
+    if mode == 'linked':
+        try:
+            run_linked(run, case, d)
+        finally:
+            up.faults.clear()
+            shutil.rmtree(d, ignore_errors=True)
+        return
     try:
         with timezone(spec['tz']):
             if mode == 'serve':
